@@ -1,7 +1,8 @@
 """C18 - multivectors obey the axioms of geometric (Clifford) algebra.
 
 Pipeline: C18_Gen / C18_GenRand (TLC: enumerate blade pairs / triples / unary
-inputs / small and random multivectors / construction recipes / random operator
+inputs / multi-term homogeneous multivectors / small and random multivectors /
+construction recipes with numeric and expression-tree coefficients / random operator
 programs, and model check the M-layer axioms and "bitmap algorithm refines the
 meaning") -> drive (real Space / MultiVector objects) -> C18_Judge (TLC judges
 every recorded result against the index-list blade algebra of C18_Clifford).
@@ -714,8 +715,9 @@ def run(tier, seed, out):
     out.rule = ("TLC enumerates (C18_Gen) every pair and triple of basis blades for every dimension "
                 "0..4 (5 thorough) and diagonal metric over {1,-1,0,2} (triples in the top dimensions: "
                 "a listed subset of metrics), every basis blade x 2-5 coefficients and a pool of multi-term "
-                "multivectors for the unary operations, pool^3 x scalar pairs for bilinearity, pairs of "
-                "construction recipes for ==/hash/bool, and draws random multivectors / operator programs "
+                "multivectors and every 2-3-element set of basis blades of one grade (kind homog) for the unary "
+                "operations, pool^3 x scalar pairs for bilinearity, pairs of construction recipes for "
+                "==/hash/bool with numeric and with expression-tree coefficients (twins built separately), and draws random multivectors / operator programs "
                 "with -simulate (C18_GenRand, seeded); one case = one record judged by C18_Judge clause by "
                 "clause; non-trivial = at least one operand of grade >= 1 (pairs: grades sum >= 2); distinct "
                 "by canonical JSON digest of the case")
@@ -725,7 +727,10 @@ def run(tier, seed, out):
         "its consistency (associativity on all blade triples) is itself checked by TLC in stage 1",
         "coefficients are exact: int, Fraction, and floats that are small dyadic rationals; anything beyond "
         "|num|,den <= 30000 is skipped (counted in skipped_out_of_model)",
-        "inverse is decided for multiples of basis blades and for vectors (the blades inv() accepts)",
+        "an answer of inv() is demanded for non-null multiples of basis blades and for vectors; every value "
+        "inv() returns (on any input) must be a two-sided inverse; a refusal elsewhere is not judged",
+        "== of multivectors whose symbolic coefficients differ as trees but agree at all three evaluation "
+        "points (x+y / y+x) is not decided (skipped); its symmetry, negation and hash consistency are",
         "a bitmap-keyed data dict with an explicit zero coefficient is ill-formed input: its ==/hash/bool "
         "clauses are skipped",
     ]
